@@ -306,8 +306,8 @@ class Analysis:
             conj: List[Conj] = [frozenset()]
             dead = False
             for (n, l) in path:
-                if n.kind == "test" and l in ("T", "F"):
-                    d = self.dnf(n.ast, l == "T", fi)
+                if n.kind == "test" and cfgm.branch_of(l):
+                    d = self.dnf(n.ast, cfgm.branch_of(l) == "T", fi)
                     conj = _and_all([conj, d])
                     if not conj:
                         dead = True
